@@ -320,13 +320,18 @@ def c19_export(ci, atts, op, exists, append, nice):
                     csv.writer(f).writerow(['old'])
                 pre = 0 if not append else 1
             mode = 'a' if append else 'w'
+            extra = None
+            if nice >= 4:
+                extra = ('plus', 'uid')[nice - 4] if op == 'tractwriter' else None
+                nice = 0
             nice_val = (False, True, ['H%d' % i for i in range(len(atts))], {atts[0]: 'Custom'})[nice]
             try:
                 if op == 'tracts_to_csv':
                     tl.tracts_to_csv(atts, fp, mode, nice_headers=nice_val)
                 else:
-                    w = TractWriter(atts, fp, mode, nice_headers=nice_val)
-                    w.write(tl)
+                    w = TractWriter(list(atts), fp, mode, nice_headers=nice_val, plus_cols=['Report Date'] if extra == 'plus' else None,
+                                    uid=1 if extra == 'uid' else None)
+                    w.write(tl, plus_cols=['2020-01-01'] if extra == 'plus' else None)
                     w.close()
                 with open(fp, newline='') as f:
                     rows = list(csv.reader(f))
@@ -340,6 +345,10 @@ def c19_export(ci, atts, op, exists, append, nice):
             if not (exists and append):
                 rows = rows[1:]
             want = [[str(cell(v)) for v in e] for e in exp]
+            if extra is not None:
+                if any(len(r) != len(atts) + 1 for r in rows):
+                    return True, f'rows read back {rows}: expected {len(atts)} attribute cells and one additional cell per row'
+                rows = [r[:-1] for r in rows]
             return rows != want, f'rows read back {rows} expected {want}'
         if op == 'to_dict':
             recs = [[t.to_dict(*atts)[a] for a in atts] for t in tl]
@@ -496,7 +505,9 @@ def c14_tract(cfg, ops):
 @replay('c15_history')
 def c15_history(ops, pi=None):
     from props.c15_ref import observe, apply_op, OPS, N_PROBES
+    from props.c15_ref import expected_defaults
     base = {p: observe(p) for p in range(N_PROBES)}           # fresh interpreter, empty history
+    base[N_PROBES - 1] = expected_defaults()                  # the defaults probe is held against the specification
     for name in ops:
         if name in ('mutate_exports', 'parse_same_under_other_defaults'):
             for p in range(N_PROBES):
